@@ -65,8 +65,10 @@ BOUNDS = {
     "thorough": dict(MaxLen=4, Vals=set(range(1, 6)), BinSizes={1, 2, 3}, NBinSet={1, 2, 3, 4}, NPerSet={1, 2, 3, 4, 5},
                      MinVals={0, 2}, MaxVals={4, 7}, TMaxLen=4, TVals={1, 2, 4}, TYVals={0, 3}, TWts={1, 4}),
 }
-INVARIANTS = ["MechRefines", "MergeRefines", "MergeSafe", "ByNumSane", "MomentsSane", "RepDesignCovers", "RepCarriesNoValue"]
-ACTIONS = ["ChooseData", "ChooseSpec", "ChooseX", "ChooseYW", "ChooseRepData", "ChooseRep", "HistPass", "NumPass", "NumConvert", "NumMerge", "NumKeep",
+INVARIANTS = ["MechRefines", "MergeRefines", "MergeSafe", "ByNumSane", "MomentsSane", "RepDesignCovers", "RepCarriesNoValue",
+              "HistMechRefines", "ScaleLaw", "ScaleFormulasDefined"]
+ACTIONS = ["ChooseData", "ChooseSpec", "ChooseX", "ChooseYW", "ChooseRepData", "ChooseRep", "HChooseData", "HEvent",
+           "ChooseScalePattern", "ChooseScale", "HistPass", "NumPass", "NumConvert", "NumMerge", "NumKeep",
            "CalcStats", "Assemble"]
 
 PLAIN = ("mean", "var", "err2", "med")
@@ -300,16 +302,26 @@ def big_real(obs, S, D, cap, unit, off=0, square=False, sentinel=None):
     return {"k": "ivl", "n": max(math.floor(lo * IVL_K), -bound * IVL_K), "d": min(math.ceil(hi * IVL_K), bound * IVL_K)}
 
 
-def project(res, c, L, p):
-    """result dictionary -> observation record (floats projected onto lattice rationals)"""
-    base = {"hasy": p["hasy"], "hasw": p["hasw"],
+def project(res, c, L, p, stats=True, Q=None):
+    """result dictionary -> observation record (floats projected onto lattice rationals).
+    Q (scale cases): overrides of the operand scales and denominator bounds, and `emul`: the error-type outputs are
+    recorded multiplied by the replication factor (their expectations then keep small denominators)"""
+    base = {"hasy": p["hasy"], "hasw": p["hasw"], "stats": bool(stats),
             "wantrev": bool(p["entry"] == "histogram" or p["hasy"] or p["hasw"] or p["rev"])}
     o = dict(base, err="none", hist=[], hasrev=False, rev=[], **{f: [] for f in ALLFIELDS})
     if isinstance(res, Exception):
         o["err"] = type(res).__name__
         return o
     S = scales(c, L)
+    if Q:
+        S.update({kk: Q[kk] for kk in ("s1x", "s1y", "se") if kk in Q})
     n, W = S["n"], S["W"]
+    D = dict(mean=max(n, 2), med=2, var=max(n * n, 2), err2=max(n ** 3, 2), wmean=max(W, 2), wvar=max(W * W, 2),
+             werri=max(W, 2), werr2=max(W ** 4, 2))
+    emul = 1
+    if Q:
+        D.update(Q["D"])
+        emul = Q["emul"]
     o["hist"] = [int(v) for v in res["hist"]]
     o["hasrev"] = "rev" in res
     o["rev"] = [int(v) for v in res["rev"]] if o["hasrev"] else []
@@ -329,25 +341,25 @@ def project(res, c, L, p):
             return big_real(v, s1, D, cap, unit, off=off, sentinel=sent)
         return real(v, s1, div=unit, off=off, sentinel=sent, den_bound=D)
 
-    def sq(v, s1, unit, big, D, cap):
+    def sq(v, s1, unit, big, D, cap, mul=1):
         if big:
             return big_real(v, s1, D, cap, unit, square=True, sentinel=SENTINEL)
-        return real(v, 8 * s1 * s1, div=unit ** 2, square=True, sentinel=SENTINEL, den_bound=D)
+        return real(v, 8 * s1 * s1, div=unit ** 2, mul=mul, square=True, sentinel=SENTINEL, den_bound=D)
 
     for fld in ("low", "high", "center"):
         o[fld] = [lin(v, S["se"], S["unit"], S["off"], S["xbig"], 2 * eden, cp["xl"], sent=None) for v in get(pre + fld, fld)]
 
     def plain(keypre, outpre, unit, off, s1, big, cl, cs):
-        o[outpre + "mean"] = [lin(v, s1, unit, off, big, max(n, 2), cl) for v in get(keypre + "mean")]
-        o[outpre + "med"] = [lin(v, s1, unit, off, big, 2, cl) for v in get(keypre + "median")]
-        o[outpre + "var"] = [sq(v, s1, unit, big, max(n * n, 2), cs) for v in get(keypre + "std")]
-        o[outpre + "err2"] = [sq(v, s1, unit, big, max(n ** 3, 2), cs) for v in get(keypre + "err")]
+        o[outpre + "mean"] = [lin(v, s1, unit, off, big, D["mean"], cl) for v in get(keypre + "mean")]
+        o[outpre + "med"] = [lin(v, s1, unit, off, big, D["med"], cl) for v in get(keypre + "median")]
+        o[outpre + "var"] = [sq(v, s1, unit, big, D["var"], cs) for v in get(keypre + "std")]
+        o[outpre + "err2"] = [sq(v, s1, unit, big, D["err2"], cs, mul=emul) for v in get(keypre + "err")]
 
     def wtd(keypre, outpre, unit, off, s1, big, cl, cs):
-        o[outpre + "mean"] = [lin(v, s1, unit, off, big, max(W, 2), cl) for v in get(keypre + "mean")]
-        o[outpre + "var"] = [sq(v, s1, unit, big, max(W * W, 2), cs) for v in get(keypre + "std")]
-        o[outpre + "erri"] = [real(v, 1, mul=S["wunit"], square=True, sentinel=SENTINEL, den_bound=max(W, 2)) for v in get(keypre + "err")]
-        o[outpre + "err2"] = [sq(v, s1, unit, big, max(W ** 4, 2), cs) for v in get(keypre + "err2")]
+        o[outpre + "mean"] = [lin(v, s1, unit, off, big, D["wmean"], cl) for v in get(keypre + "mean")]
+        o[outpre + "var"] = [sq(v, s1, unit, big, D["wvar"], cs) for v in get(keypre + "std")]
+        o[outpre + "erri"] = [real(v, 1, mul=S["wunit"] * emul, square=True, sentinel=SENTINEL, den_bound=D["werri"]) for v in get(keypre + "err")]
+        o[outpre + "err2"] = [sq(v, s1, unit, big, D["werr2"], cs, mul=emul) for v in get(keypre + "err2")]
 
     X = (S["unit"], S["off"], S["s1x"], S["xbig"], cp["xl"], cp["xs"])
     Y = (S["yunit"], S["yoff"], S["s1y"], S["ybig"], cp["yl"], cp["ys"])
@@ -397,8 +409,149 @@ def run_case(job):
         need_den(sum(c["w"]) ** 4, "total weight")
     need_den(len(c["x"]) ** 3, "array length")
     L = lattice(c, k)
-    return {"id": i, "c": c, "conc": k, "lattice": [L["unit"], L["off"], L["yunit"], L["yoff"], L["wunit"], L["rep"]],
+    return {"id": i, "kind": "case", "c": c, "conc": k, "lattice": [L["unit"], L["off"], L["yunit"], L["yoff"], L["wunit"], L["rep"]],
             "runs": [run_variant(c, L, p) for p in ps]}
+
+
+# ---- histories on one Binner (rejected calls included) ---------------------------------------------------
+def ev_case(c, ev):
+    return {"x": c["x"], "y": c["y"], "w": c["w"], "mode": ev["mode"], "b": ev["b"], "merge": ev["merge"],
+            "hasmin": ev["hasmin"], "min": ev["min"], "hasmax": ev["hasmax"], "max": ev["max"]}
+
+
+def run_history(job):
+    """c = data + h (the calls, exported by BinStatsMC.tla); every call is made on ONE Binner(x, y, weights); what the
+    object holds after each call (or the exception) is recorded"""
+    i, c, k = job[0], job[1], job[2] % NBASE
+    su = _su()
+    base = ev_case(c, {"mode": "binsize", "b": 1, "merge": False, "hasmin": False, "min": 0, "hasmax": False, "max": 0})
+    L = lattice(base, k)
+    x, y, w, _ = concretise(base, L)
+    engine = "c" if i % 2 else "py"
+    saved = su.have_chist
+    su.have_chist = (engine == "c") and saved
+    p0 = {"entry": "Binner", "engine": engine, "hasy": True, "hasw": True, "rev": False}
+    runs, last_ok = [], base
+    try:
+        with warnings.catch_warnings():
+            warnings.simplefilter("ignore")
+            with np.errstate(all="ignore"):
+                b = su.Binner(x, y=y, weights=w)
+                for ev in c["h"]:
+                    cc = ev_case(c, ev)
+                    try:
+                        if ev["op"] == "dohist":
+                            _, _, _, kw = concretise(cc, L)
+                            if ev["nokw"]:
+                                kw = {kk: v for kk, v in kw.items() if kk in ("min", "max")}
+                            b.dohist(calc_stats=bool(ev["cs"]), **kw)
+                            last_ok = cc
+                            res, stats, pc = dict(b), bool(ev["cs"]), cc
+                        else:
+                            b.calc_stats()
+                            res, stats, pc = dict(b), True, last_ok
+                    except Exception as e:  # noqa
+                        res, stats, pc = e, True, cc
+                    runs.append({"p": dict(p0, ev=ev), "o": project(res, pc, L, p0, stats=stats), "raw": raw_summary(res), "problems": []})
+    finally:
+        su.have_chist = saved
+    return {"id": i, "kind": "history", "c": c, "conc": k, "runs": runs}
+
+
+# ---- scale cases: bins with hundreds to thousands of members ------------------------------------------------
+def run_scale(job):
+    """c = pattern case + scale [K, NB, T] (exported by BinStatsMC.tla).  The data handed to the code: NB blocks (shifted along
+    x into bins of their own) of K replicas of the pattern, y = y0*T + (replica mod T), in a seeded random order.  The reverse
+    indices are compressed per bin into counts per pattern position (cnt), other / out-of-range entries (foreign), repeats (dups)."""
+    i, c, k, seed = job[0], job[1], job[2] % NBASE, job[3]
+    su = _su()
+    K, NB, T = c["scale"]["K"], c["scale"]["NB"], c["scale"]["T"]
+    x0, y0, w0 = c["x"], c["y"], c["w"]
+    n0 = len(x0)
+    if c["mode"] == "nperbin":
+        per, step = n0 // c["b"], max(x0) - min(x0) + 1
+    else:
+        per = (max(x0) - min(x0)) // c["b"] + 1
+        step = per * c["b"]
+    N = NB * K * n0
+    j = np.arange(N)
+    p_of, r_of, blk_of = j % n0, (j // n0) % K, j // (n0 * K)
+    perm = np.random.RandomState(seed).permutation(N)
+    p_of, r_of, blk_of = p_of[perm], r_of[perm], blk_of[perm]
+    xl = np.array(x0)[p_of] + blk_of * step
+    yl = np.array(y0)[p_of] * T + (r_of % T)
+    wl = np.array(w0)[p_of]
+    L = lattice(dict(c, rep=dict(NATIVE)), k)
+    x = ((xl + L["off"]) * L["unit"]).astype("f8")
+    y = ((yl + L["yoff"]) * L["yunit"]).astype("f8")
+    w = (wl * L["wunit"]).astype("f8")
+    kw = {"binsize": c["b"] * L["unit"]} if c["mode"] == "binsize" else {"nperbin": int(K * c["b"]), "mergelast": True}
+    W0 = sum(w0)
+    Q = {"s1x": int(max(abs(xl + L["off"]).max(), 1)), "s1y": int(max(abs(yl + L["yoff"]).max(), 1)), "emul": K,
+         "D": dict(mean=2 * n0, med=2, var=12 * n0 * n0 * N, err2=12 * n0 ** 3 * N, wmean=2 * W0, wvar=12 * W0 * W0,
+                   werri=W0, werr2=12 * W0 ** 4)}
+    Q["se"] = 3 * Q["s1x"] + c["b"] + 1
+
+    def compress(res):
+        if isinstance(res, Exception) or "rev" not in res:
+            return {"cnt": [], "foreign": [], "dups": []}
+        rev, nb = np.asarray(res["rev"]), len(res["hist"])
+        if rev.size < nb + 1 or rev[0] != nb + 1 or np.any(np.diff(rev[:nb + 1]) < 0) or rev[nb] > rev.size:
+            return {"cnt": [], "foreign": [], "dups": []}
+        cnt, foreign, dups = [], [], []
+        for bi in range(nb):
+            idx = rev[rev[bi]:rev[bi + 1]]
+            good = idx[(idx >= 0) & (idx < N)]
+            mine = good[blk_of[good] == bi // per]
+            cnt.append([int(v) for v in np.bincount(p_of[mine], minlength=n0)])
+            foreign.append(int(idx.size - mine.size))
+            dups.append(int(idx.size - np.unique(idx).size))
+        return {"cnt": cnt, "foreign": foreign, "dups": dups}
+
+    def call(entry, engine, hasy, hasw, split=False):
+        saved = su.have_chist
+        su.have_chist = (engine == "c") and saved
+        try:
+            with warnings.catch_warnings():
+                warnings.simplefilter("ignore")
+                with np.errstate(all="ignore"):
+                    if entry == "histogram":
+                        return su.histogram(x, weights=w, **kw) if hasw else su.histogram(x, more=True, **kw)
+                    b = su.Binner(x, y=y if hasy else None, weights=w if hasw else None)
+                    if split:
+                        b.dohist(calc_stats=False, **kw)
+                        b.calc_stats()
+                    else:
+                        b.dohist(**kw)
+                    return b
+        except Exception as e:  # noqa
+            return e
+        finally:
+            su.have_chist = saved
+
+    e1, e2 = ("c", "py") if i % 2 == 0 else ("py", "c")
+    runs = []
+    for entry, engine, hasy, hasw, split, both in (("Binner", e1, True, True, False, False), ("Binner", e2, True, False, True, False),
+                                                   ("histogram", "c", False, False, False, True), ("histogram", e2, False, True, False, False)):
+        p = {"entry": entry, "engine": engine, "hasy": hasy, "hasw": hasw, "rev": True, "split": split, "both": both}
+        res = call(entry, engine, hasy, hasw, split)
+        problems = []
+        if both and not same_dict(res, call(entry, "py", hasy, hasw, split)):
+            problems.append("engines_differ")
+        o = project(res, c, L, p, Q=Q)
+        o["rev"] = []
+        o["comp"] = compress(res)
+        raw = {"exc": repr(res)} if isinstance(res, Exception) else {"nbins": len(res["hist"]), "N": N, "seed": seed}
+        runs.append({"p": p, "o": o, "raw": raw, "problems": problems})
+    return {"id": i, "kind": "scale", "c": c, "conc": k, "seed": seed, "runs": runs}
+
+
+def tl_record(r):
+    """what TLC reads (BinStatsTrace.tla)"""
+    if r["kind"] == "history":
+        return {"id": r["id"], "kind": "history", "c": {kk: r["c"][kk] for kk in ("x", "y", "w")},
+                "evs": [dict(u["p"]["ev"], o=u["o"]) for u in r["runs"]]}
+    return {"id": r["id"], "kind": r["kind"], "c": r["c"], "obs": [u["o"] for u in r["runs"]]}
 
 
 # ---- signatures ----------------------------------------------------------------------------------
@@ -415,20 +568,20 @@ def signature(p, clause, c):
 
 def judge(ctx, recs, what, constants=None, _twin=False):
     big = len(recs) > 21000          # thorough-tier chunks: more, smaller TLC processes
-    rejects = tracecheck.validate(ctx, "BinStatsTrace.tla",
-                                  [{"id": r["id"], "c": r["c"], "obs": [u["o"] for u in r["runs"]]} for r in recs],
+    rejects = tracecheck.validate(ctx, "BinStatsTrace.tla", [tl_record(r) for r in recs],
                                   what=what, constants=constants or {"StrictOneMember": STRICT},
                                   shard_size=3200 if big else 5000, max_shards=8 if big else 5, workers=2 if big else None)
     byid = {r["id"]: r for r in recs}
     # a rejected case given in a non-native representation is re-run in the native one (same values, same lattice slot):
     # clauses that then pass are representation dependent and get their own signature class
-    foreign = [rid for rid in sorted(rejects) if any(v != "f8" for v in byid[rid]["c"].get("rep", NATIVE).values())][:2000]
+    foreign = [rid for rid in sorted(rejects) if byid[rid]["kind"] == "case" and
+               any(v != "f8" for v in byid[rid]["c"].get("rep", NATIVE).values())][:2000]
     twin_fail = {}
     if foreign and not _twin:
         twins = [run_case((n + 1, dict(byid[rid]["c"], rep=dict(NATIVE)), byid[rid]["conc"], [u["p"] for u in byid[rid]["runs"]]))
                  for n, rid in enumerate(foreign)]
         saved = ctx.traces
-        trej = tracecheck.validate(ctx, "BinStatsTrace.tla", [{"id": r["id"], "c": r["c"], "obs": [u["o"] for u in r["runs"]]} for r in twins],
+        trej = tracecheck.validate(ctx, "BinStatsTrace.tla", [tl_record(r) for r in twins],
                                    what=what + " [native twins of rejected foreign-representation cases]",
                                    constants={"StrictOneMember": STRICT})
         ctx.traces = saved
@@ -438,18 +591,28 @@ def judge(ctx, recs, what, constants=None, _twin=False):
         for f in failing:
             ki, clause = f.split(":", 1)
             u = r["runs"][int(ki) - 1]
-            sig = signature(u["p"], clause, r["c"])
-            if rid in twin_fail and f not in twin_fail[rid]:
-                sig += "|representation-dependent"
-            ctx.violation(sig,
-                          "esutil.stat.%s result not allowed by BinStats.tla: clause %s" % (u["p"]["entry"], clause),
-                          {"c": r["c"], "conc": r["conc"], "ps": [u["p"]], "observed": u["o"], "raw": u["raw"]})
+            if r["kind"] == "history":
+                # the calls up to the failing one, by outcome: e.g. ok>rejected>calc
+                kinds = ["calc" if q["p"]["ev"]["op"] == "calc" else ("rejected" if q["o"]["err"] != "none" else "ok")
+                         for q in r["runs"][:int(ki)]]
+                sig = "Binner-history|%s|%s" % (clause, ">".join(kinds[-3:]))
+                case = {"kind": "history", "c": r["c"], "conc": r["conc"], "failing_event": int(ki), "raw": [q["raw"] for q in r["runs"]]}
+            elif r["kind"] == "scale":
+                sig = "%s|%s%s" % (u["p"]["entry"], clause, "" if "|" in clause else "|" + struct_class(r["c"]))
+                case = {"kind": "scale", "c": r["c"], "conc": r["conc"], "seed": r["seed"], "ps": [u["p"]], "raw": u["raw"]}
+            else:
+                sig = signature(u["p"], clause, r["c"])
+                if rid in twin_fail and f not in twin_fail[rid]:
+                    sig += "|representation-dependent"
+                case = {"c": r["c"], "conc": r["conc"], "ps": [u["p"]], "observed": u["o"], "raw": u["raw"]}
+            ctx.violation(sig, "esutil.stat.%s result not allowed by BinStats.tla: clause %s" % (u["p"]["entry"], clause), case)
     for r in recs:
         for u in r["runs"]:
             for pb in u["problems"]:
                 ctx.violation("%s|%s|%s" % (u["p"]["entry"], pb, struct_class(r["c"])),
                               "call modified an array argument / the two engines returned different dictionaries (%s)" % pb,
-                              {"c": r["c"], "conc": r["conc"], "ps": [u["p"]], "raw": u["raw"]})
+                              dict({"c": r["c"], "conc": r["conc"], "ps": [u["p"]], "raw": u["raw"]},
+                                   **({"kind": "scale", "seed": r["seed"]} if r["kind"] == "scale" else {})))
     return rejects
 
 
@@ -506,7 +669,8 @@ def seeded_cases(rng, n, maxlen, heavy):
 # ---- the check ------------------------------------------------------------------------------------------
 def run(ctx):
     B = BOUNDS[ctx.tier]
-    consts = dict(B, Kinds={"bins", "stats", "reps"}, RepFull=not ctx.quick, FixedWhist=True, MergeVariant="code", DoExport=False, StrictOneMember=False)
+    consts = dict(B, Kinds={"bins", "stats", "reps", "hist", "scale"}, RepFull=not ctx.quick, HistLen=3 if ctx.quick else 4,
+                  RestoreOnFail=False, ScaleBig=not ctx.quick, FixedWhist=True, MergeVariant="code", DoExport=False, StrictOneMember=False)
     # 1. design level: the mechanisms refine the property, the definitions are sane, no overflow - the whole space.
     #    Per-action coverage (vacuity guard) costs 3x: in the thorough tier it is taken on the quick bounds and the
     #    large space is explored without it (its state count is checked against the number of cases instead).
@@ -515,7 +679,7 @@ def run(ctx):
                      cfg_text=cfg(constants=consts, invariants=INVARIANTS), workers=16, require=ACTIONS, timeout=3000)
     else:
         ctx.tlc("BinStatsMC.tla", what="mechanisms refine property (quick bounds, action coverage)",
-                cfg_text=cfg(constants=dict(consts, RepFull=False, **BOUNDS["quick"]), invariants=INVARIANTS), workers=16, require=ACTIONS, timeout=3000)
+                cfg_text=cfg(constants=dict(consts, RepFull=False, HistLen=3, ScaleBig=False, **BOUNDS["quick"]), invariants=INVARIANTS), workers=16, require=ACTIONS, timeout=3000)
         r1 = ctx.tlc("BinStatsMC.tla", what="mechanisms refine property + definitions sane (exhaustive)",
                      cfg_text=cfg(constants=consts, invariants=INVARIANTS), workers=16, coverage=False, timeout=3000)
     # 1b. non-vacuity of MechRefines: deviating mechanisms must violate it
@@ -527,13 +691,35 @@ def run(ctx):
                      workers=1, allow_violation=True, coverage=False)      # one worker: deterministic state count
         if inv not in rb.violated:
             raise MachineryError("self-test failed: %s not violated by the deviating mechanism (%s)" % (inv, name))
+    rb = ctx.tlc("BinStatsMC.tla", what="self-test: failing dohist that restores the dictionary but not the range violates HistMechRefines",
+                 cfg_text=cfg(constants=dict(consts, Kinds={"hist"}, HistLen=3, RestoreOnFail=True), invariants=["HistMechRefines"]),
+                 workers=1, allow_violation=True, coverage=False)
+    if "HistMechRefines" not in rb.violated:
+        raise MachineryError("self-test failed: HistMechRefines not violated by the deviating history mechanism")
     # 2. export every case (spec -> code)
     r2 = ctx.tlc("BinStatsMC.tla", what="export cases",
                  cfg_text=cfg(constants=dict(consts, DoExport=True), next_="NextExport", constraints=["Export"]),
                  workers=1, coverage=False, timeout=3000)
-    cases = r2.records.get("CASE", [])
-    if not cases:
-        raise MachineryError("no cases exported")
+    exported = r2.records.get("CASE", [])
+    cases = [cse for cse in exported if "h" not in cse and "scale" not in cse]
+    histories = [cse for cse in exported if "h" in cse]
+    scalecases = [cse for cse in exported if "scale" in cse]
+    if not cases or not histories or not scalecases:
+        raise MachineryError("no cases exported (%d cases, %d histories, %d scale cases)" % (len(cases), len(histories), len(scalecases)))
+    # 2b. longer histories (beyond the exhaustive depth): tlc -simulate, every complete history it visits is exported
+    hl, hn = (12, 10) if ctx.quick else (25, 100)
+    r2s = ctx.tlc("BinStatsMC.tla", what="simulate long call histories (%d calls)" % hl,
+                  cfg_text=cfg(constants=dict(consts, Kinds={"hist"}, HistLen=hl, DoExport=True), next_="NextExport", constraints=["Export"],
+                               invariants=["HistMechRefines"]),
+                  workers=1, coverage=False, simulate="num=%d" % hn, extra=["-depth", str(hl + 3), "-seed", str(ctx.seed + 1)], timeout=3000)
+    longh, seen_h = [], set()
+    for cse in r2s.records.get("CASE", []):
+        key = repr(cse)
+        if key not in seen_h:
+            seen_h.add(key)
+            longh.append(cse)
+    if not longh:
+        raise MachineryError("no long histories exported by the simulation")
     nmode = {}
     for cse in cases:
         nmode[cse["mode"]] = nmode.get(cse["mode"], 0) + 1
@@ -547,19 +733,20 @@ def run(ctx):
     def batch(jobs, what):
         chunk = 25000
         for lo in range(0, len(jobs), chunk):
-            recs = pmap(run_case, jobs[lo:lo + chunk])
+            recs = pmap(run_job, jobs[lo:lo + chunk])
             for r in recs:
                 ctx.count(r["c"], n=len(r["runs"]))
-                reps_seen.add(tuple(r["c"].get("rep", NATIVE)[a] for a in "xyw"))
+                if r["kind"] == "case":
+                    reps_seen.add(tuple(r["c"].get("rep", NATIVE)[a] for a in "xyw"))
             rej = judge(ctx, recs, "%s [%d..%d]" % (what, lo + 1, lo + len(recs)))
             structure_census(recs, census)
             if not first:
-                first.update(recs=recs[:4000], rej=rej)
+                first.update(recs=[r for r in recs if r["kind"] == "case"][:4000], rej=rej)
                 for r in recs[:: max(1, len(recs) // 4)][:4]:
                     ctx.sample({"case": r["c"], "call": r["runs"][-1]["p"], "observed": r["runs"][-1]["o"]})
         return len(jobs)
 
-    nrec = batch([(i, cse, i % len(CONC)) for i, cse in enumerate(cases, 1)], "judge replayed cases (BinStatsTrace)")
+    nrec = batch([("case", i, cse, i % len(CONC)) for i, cse in enumerate(cases, 1)], "judge replayed cases (BinStatsTrace)")
     pairs = {(p, q, t[p], t[q]) for t in reps_seen for p in range(3) for q in range(p + 1, 3)}
     if len(pairs) != 3 * len(REPS) ** 2:
         raise MachineryError("representation design not covered: %d of %d pairs" % (len(pairs), 3 * len(REPS) ** 2))
@@ -567,16 +754,30 @@ def run(ctx):
     # 3. larger seeded cases (code -> spec)
     nrand, maxlen = (600, 40) if ctx.quick else (12000, 60)
     sc = seeded_cases(random.Random(ctx.seed), nrand, maxlen, 40 if ctx.quick else 160)
-    nseed = batch([(nrec + 1 + i, cse, (ctx.seed + i) % len(CONC)) for i, cse in enumerate(sc)],
+    nseed = batch([("case", nrec + 1 + i, cse, (ctx.seed + i) % len(CONC)) for i, cse in enumerate(sc)],
                   "judge seeded larger cases (BinStatsTrace)")
+    # 3b. call histories with rejected calls (exhaustive to depth %d, simulated beyond) and scale cases
+    hs_jobs = [("history", i, cse, i + ctx.seed) for i, cse in enumerate(histories + longh, 1)]
+    hs_jobs += [("scale", len(hs_jobs) + i, cse, i + ctx.seed, 1000 * ctx.seed + i) for i, cse in enumerate(scalecases, 1)]
+    hs_recs = pmap(run_job, hs_jobs)
+    for r in hs_recs:
+        ctx.count(r["c"], n=len(r["runs"]))
+    hs_rej = judge(ctx, hs_recs, "judge call histories and scale cases (BinStatsTrace)")
+    structure_census(hs_recs, census)
+    selftest_hs(ctx, hs_recs, hs_rej)
     # 4. binding self-test and structure census (vacuity guards)
     selftest(ctx, first["recs"], first["rej"])
     for need in ("empty_bins", "one_member_bins", "multi_member_bins", "merged_last_bins", "short_last_bins", "tied_values",
-                 "rejected_no_data", "large_offset_records", "large_offset_interval_records"):
+                 "rejected_no_data", "large_offset_records", "large_offset_interval_records", "histories_calc_after_rejected_call",
+                 "large_even_bins_with_distinct_y", "large_odd_bins"):
         # the census is taken from what the code returned: only meaningful (and only enforced) on a run without violations
         if not census.get(need) and not ctx.violations:
             raise MachineryError("vacuous run: no case with %s (%s)" % (need, census))
-    ctx.rule = ("[representations] every case is handed to the code in one representation triple (x, y, weights) out of %d^3 - "
+    ctx.rule = ("[histories] every sequence of %d calls (12 kinds: dohist with 7 specifications x calc_stats on/off, 4 rejected ones - no "
+                "data in range / no binning keyword -, calc_stats) on one Binner(x,y,weights) for 2 data arrays, and %d simulated "
+                "histories of %d calls, judged after every call; [scale] %d pattern x size cases (K replicas x NB blocks, bins of 128..8194 "
+                "members, even / odd, across 256) judged through the replication law; " % (consts["HistLen"], len(longh), hl, len(scalecases)) +
+                "[representations] every case is handed to the code in one representation triple (x, y, weights) out of %d^3 - "
                 "float64/float32/int32/int64/uint8, non-native byte order, python list, strided / reversed / packed-record-field view, "
                 "0-d or tuple of numpy scalars - following a pairwise-covering design (169 triples%s) enumerated by BinStatsMC.tla; "
                 % (len(REPS), "" if ctx.quick else "; family 'reps': the full product") +
@@ -591,7 +792,8 @@ def run(ctx):
                  sorted(B["MaxVals"]), B["TMaxLen"], sorted(B["TVals"]), sorted(B["TYVals"]), sorted(B["TWts"]), len(CONC), nrand, maxlen))
     ctx.exhaustive = True
     ctx.note(bounds={k: sorted(v) if isinstance(v, set) else v for k, v in B.items()}, exported_cases=nmode,
-             records=nrec, seeded_records=nseed, structure_census=census, strict_one_member_reading=STRICT,
+             records=nrec, seeded_records=nseed, histories_exhaustive=len(histories), histories_simulated=len(longh),
+             history_lengths=[consts["HistLen"], hl], scale_cases=len(scalecases), structure_census=census, strict_one_member_reading=STRICT,
              representations=REPS, representation_triples_exported=nreps_exported)
     ctx.assumptions = [
         "dyadic lattice: data (x+off)*2^k, weights w*2^j, total weight <= 32; expected values are exact rationals with bounded denominators",
@@ -608,10 +810,21 @@ def run(ctx):
         "empty bins: mean = -9999 (documented); other statistics -9999 or NaN; whist 0 or -9999",
         "equal-occupancy bins: order among equal values is not prescribed; no centre is defined for them",
         "non-positive weights and non-dyadic bin sizes off the lattice are outside the check",
+        "histories: after a rejected dohist the statement does not say whether earlier results survive: calc_stats may raise, or "
+        "must report quantities that equal direct computation for the last successful specification; a dohist without binning "
+        "keyword that does not raise is not judged",
+        "scale: large bins are block-structured (K replicas of a small pattern bin, y with a sub-pattern of period T in scrambled "
+        "order); membership is judged on per-bin counts per pattern position (digest of the reverse indices), statistics through "
+        "the replication law (theorem ScaleLaw, checked by explicit expansion for K <= 4); the order inside a large bin's "
+        "reverse-index slice is not judged",
         "representations: a variable whose representation cannot hold its lattice values exactly (float32 / integers / uint8 with a "
         "fractional unit, negative or 2^40 offset) is put on the plain integer lattice instead; the value handed over is always exact",
     ]
     ctx.trusted_base = ctx.trusted_base + ["fractions.Fraction arithmetic and Fraction.limit_denominator in the float->lattice projection"]
+
+
+def run_job(job):
+    return {"case": run_case, "history": run_history, "scale": run_scale}[job[0]](job[1:])
 
 
 def structure_census(recs, cen):
@@ -620,6 +833,21 @@ def structure_census(recs, cen):
         cen[kk] = cen.get(kk, 0) + v
     for r in recs:
         c = r["c"]
+        if r["kind"] == "history":
+            outcome = ["calc" if u["p"]["ev"]["op"] == "calc" else ("rejected" if u["o"]["err"] != "none" else "ok") for u in r["runs"]]
+            for a in range(len(outcome) - 2):
+                if outcome[a] == "ok" and outcome[a + 1] == "rejected" and outcome[a + 2] == "calc":
+                    add("histories_calc_after_rejected_call")
+            continue
+        if r["kind"] == "scale":
+            o = r["runs"][0]["o"]
+            for bi, h in enumerate(o["hist"]):
+                if h > 256 and h % 2 == 0 and bi < len(o["comp"]["cnt"]) and \
+                        len({c["y"][p] for p, v in enumerate(o["comp"]["cnt"][bi]) if v} | ({0, 1} if c["scale"]["T"] > 1 else set())) > 1:
+                    add("large_even_bins_with_distinct_y")
+                if h > 256 and h % 2 == 1:
+                    add("large_odd_bins")
+            continue
         if len(set(c["x"])) < len(c["x"]):
             add("tied_values")
         if r["conc"] >= NBASE:
@@ -692,7 +920,7 @@ def selftest(ctx, recs, rejects):
         if got is None:
             continue
         r, ui = got
-        good = {"id": 2 * n + 1, "c": r["c"], "obs": [r["runs"][ui]["o"]]}
+        good = {"id": 2 * n + 1, "kind": "case", "c": r["c"], "obs": [r["runs"][ui]["o"]]}
         bad = copy.deepcopy(good)
         bad["id"] = 2 * n + 2
         fn(bad["obs"][0])
@@ -715,7 +943,66 @@ def selftest(ctx, recs, rejects):
                              (sorted(expect[i] for i in bad_accept), {i: rej[i] for i in good_reject}))
 
 
+def selftest_hs(ctx, recs, rejects):
+    """binding of the history and scale judgements: corrupted records must be rejected, the untouched ones accepted"""
+    saved = ctx.traces
+    batch, expect = [], {}
+
+    def add(good, mutate, name):
+        n = len(batch) // 2
+        good = dict(copy.deepcopy(good), id=2 * n + 1)
+        bad = dict(copy.deepcopy(good), id=2 * n + 2)
+        mutate(bad)
+        batch.extend([good, bad])
+        expect[bad["id"]] = name
+
+    hist = next((r for r in recs if r["kind"] == "history" and r["id"] not in rejects and
+                 any(u["p"]["ev"]["op"] == "calc" and u["o"]["err"] == "none" and u["o"]["low"] for u in r["runs"])), None)
+    if hist is not None:
+        k = next(n for n, u in enumerate(hist["runs"]) if u["p"]["ev"]["op"] == "calc" and u["o"]["err"] == "none" and u["o"]["low"])
+
+        def shift_low(t):
+            t["evs"][k]["o"]["low"] = [dict(r, n=r["n"] + r["d"]) for r in t["evs"][k]["o"]["low"]]      # edges from another minimum
+        add(tl_record(hist), shift_low, "history_edges")
+    sc = next((r for r in recs if r["kind"] == "scale" and r["id"] not in rejects and r["runs"][0]["o"]["err"] == "none"
+               and r["runs"][0]["o"]["hist"] and r["runs"][0]["o"]["hist"][0] > 256), None)
+    if sc is not None:
+        def med(t):
+            r = t["obs"][0]["ymed"][0]
+            t["obs"][0]["ymed"][0] = dict(r, n=r["n"] + 1)
+
+        def members(t):
+            row = t["obs"][0]["comp"]["cnt"][0]
+            pz = next(n for n, v in enumerate(row) if v)
+            row[pz] -= 1
+            t["obs"][0]["comp"]["foreign"][0] += 1
+        add(tl_record(sc), med, "scale_median")
+        add(tl_record(sc), members, "scale_members")
+    if len(expect) < 3:
+        if not ctx.violations:
+            raise MachineryError("self-test: no accepted history / scale record to probe (%s)" % sorted(expect.values()))
+        if not expect:
+            return
+    rej = tracecheck.validate(ctx, "BinStatsTrace.tla", batch, what="self-test: corrupted history / scale records rejected", workers=1,
+                              constants={"StrictOneMember": STRICT})
+    ctx.traces = saved
+    bad_accept, good_reject = set(expect) - set(rej), set(rej) - set(expect)
+    if bad_accept or good_reject:
+        raise MachineryError("binding self-test (histories / scale) failed: corrupted accepted %s, untouched rejected %s" %
+                             (sorted(expect[i] for i in bad_accept), {i: rej[i] for i in good_reject}))
+
+
 def replay(ctx, case):
+    if case.get("kind") == "history":
+        rec = run_history((1, case["c"], case.get("conc", 0)))
+        print("replay observed:", [(u["p"]["ev"]["op"], u["o"]["err"], u["raw"]) for u in rec["runs"]])
+        judge(ctx, [rec], "replay")
+        return
+    if case.get("kind") == "scale":
+        rec = run_scale((1, case["c"], case.get("conc", 0), case.get("seed", 0)))
+        print("replay observed:", [(u["p"], u["raw"], u["problems"]) for u in rec["runs"]])
+        judge(ctx, [rec], "replay")
+        return
     rec = run_case((1, case["c"], case.get("conc", 0), case["ps"]))
     print("replay observed:", [(u["p"], u["raw"], u["problems"]) for u in rec["runs"]])
     judge(ctx, [rec], "replay")
